@@ -134,6 +134,8 @@ def generate(ctx):
         elif route == 2: bk['min_n_cycles'] = int(rng.choice([0, 1, 2, 5, 8]))
         if rng.random() < 0.3:
             bk['min_burst_duration'] = float(rng.choice([0.0, 0.0, 0.05, 0.2, 0.5]))
+        if len(cases) % 6 == 2:      # burst options written for compute_burst_features carry their own fs / f_range: the CALL's rate and band are the ones used
+            bk.update([('fs', 123.0), ('f_range', (3.0, 9.0))][:1 + len(cases) % 2] if len(cases) % 4 else [('f_range', (15.0, 25.0))])
         bkv = bk if (bk or rng.random() < 0.7) else None
         thv = th if rng.random() < 0.95 else None
         cases.append(dict(kind='signal', sig=proto.arr2hex(s['sig']), fs=s['fs'], f_range=list(s['f_range']),
